@@ -2,6 +2,7 @@ import Model.Pool
 import Model.Pipe
 import Proofs.C17Pipe
 import Proofs.C17Deb
+import Proofs.C17Reg
 /-!
 # C17 — pools stay within bounds; a session always closes (property theorems)
 
@@ -528,5 +529,56 @@ theorem C17_quit_return_strands_waiter :
       · simp at hr
   intro bs d' hr
   exact key bs _ d' (by decide) (by decide) (by decide) (by decide) hr
+
+end C17
+
+namespace C17
+/-! ### policyConnPool: concurrent addHost / removeHost / Close callers for one host (Model/Pool.lean, namespace Reg) -/
+
+open Reg C17Reg in
+/-- **no orphan pool**: whatever the interleaving of any number of addHost (UP event, ring refresh, reconnect ticker,
+    control connection), removeHost and policyConnPool.Close callers — each advancing step by step: lock, lookup,
+    create, store, unlock, fill — every hostConnPool object that is not closed and that nobody is committed to closing
+    is the REGISTERED one or the one the caller inside the mutex is about to store: no pool object is ever out of the
+    reach of removeHost / Close -/
+theorem C17_no_orphan_pool (b : Bool) (as : List Act) (s : St) (hr : run (St.init b) as = some s) (i : Nat)
+    (hl : s.live i) : s.reg = some i ∨ s.crit = some (.addCreated i) := by
+  have inv := rinv_run as _ s (rinv_init b) hr
+  obtain ⟨h1, h2, h3⟩ := hl
+  rcases inv.noOrphan i h1 with a | a | a | a
+  · exact Or.inl a
+  · exact Or.inr a
+  · exact absurd a h2
+  · exact absurd a h3
+
+open Reg C17Reg in
+/-- **at most one pool object per host** is ever registered or filling: two pool objects that are both open and not
+    committed to be closed are the same object, for all interleavings -/
+theorem C17_one_pool_per_host (b : Bool) (as : List Act) (s : St) (hr : run (St.init b) as = some s) (i j : Nat)
+    (hi : s.live i) (hj : s.live j) : i = j := by
+  have inv := rinv_run as _ s (rinv_init b) hr
+  rcases C17_no_orphan_pool b as s hr i hi with a | a <;> rcases C17_no_orphan_pool b as s hr j hj with c | c
+  · rw [a] at c; injection c
+  · have := inv.missLock (Or.inr ⟨j, c⟩); rw [a] at this; simp at this
+  · have := inv.missLock (Or.inr ⟨i, a⟩); rw [c] at this; simp at this
+  · rw [a] at c; injection c with c; injection c
+
+/-- non-vacuity: two addHost callers for a host without a pool, interleaved as far as the mutex allows; one pool -/
+example : ∃ s, Reg.run (Reg.St.init false)
+    [.callAdd, .callAdd, .addLock, .addLookup, .addCreate, .addStore, .addUnlock, .addLock, .addLookup, .addUnlock,
+     .fill 0, .fill 0] = some s ∧ s.pools = [false] ∧ s.reg = some 0 ∧ s.filled = [0, 0] := by
+  refine ⟨_, rfl, ?_, ?_, ?_⟩ <;> decide
+
+/-- What the check is there to catch (the family "addHost looks up under the read lock, builds the pool unlocked and
+    stores it under the write lock without looking again"): two callers both miss, both build a pool, the second store
+    overwrites the first — two live pool objects for one host, both filled; pool 0 is not registered, and after
+    removeHost / policyConnPool.Close it is still open. -/
+theorem C17_split_lock_orphans_pool :
+    ∃ s, Reg.runSplit (Reg.St.init false) [.callAdd, .callAdd, .sLookup, .sLookup, .sMake, .sMake, .sStore 0, .sStore 1,
+        .fill 0, .fill 1] = some s ∧
+      s.live 0 ∧ s.live 1 ∧ s.reg = some 1 ∧ s.filled = [0, 1] ∧
+      ∃ s', Reg.runSplit s [.callClose, .clLock, .clSweep, .clUnlock] = some s' ∧ s'.live 0 ∧ s'.reg = none ∧ s'.crit = none := by
+  refine ⟨_, rfl, ?_, ?_, by decide, by decide, _, rfl, ?_, by decide, by decide⟩ <;>
+    (refine ⟨by decide, by decide, by decide⟩)
 
 end C17
